@@ -985,3 +985,9 @@ Proof.
   apply existsb_exists in E. destruct E as [y [Hy Ey]]. apply Z.eqb_eq in Ey. subst y.
   rewrite (H x Hy). reflexivity.
 Qed.
+
+Lemma swap_removal_witness :
+  exists f1 f2 nl, f1 <> f2 /\ remove_swap f1 (remove_swap f2 nl) <> remove_swap f2 (remove_swap f1 nl).
+Proof.
+  exists 1, 2, [(1, 0); (2, 0); (3, 0); (4, 0)]. split; [discriminate|]. vm_compute. discriminate.
+Qed.
